@@ -30,6 +30,9 @@ def ast_class_name(prog: Program, fn: Func, e: ast.AST) -> Optional[str]:
     return None
 
 
+LATER_RULES = " Later rules: R17.2 anchored at the operand swap; (R17.9) arithmetic on a matched constant's value needs an int-pinned template; (R17.10) and/or replaced by a truth value wherever it stands (known finding); (R17.11) function-name dispatch contradiction rule; (R17.12) a helper's 'nothing to simplify' is not a replacement; (R17.13) closed forms of sums need constant ordered bounds."
+
+
 def check(prog: Program, tier: str) -> Result:
     res = Result(
         "C17",
@@ -49,6 +52,7 @@ def check(prog: Program, tier: str) -> Result:
             "nodes instead of flipping operators in the tree it was given. Not decided: sympy round trip, sum closed forms."),
         rule_text="instances = table entries, reader sites, extracted bound claims (one per guarded effect statement), folding branches",
     )
+    res.explanation += LATER_RULES
     res.trusted_base = ["CPython ast", "reference semantics of the six comparison operators (python operator module) on small rationals",
                         "reference negation / mirror tables in sa/props/c17.py"]
     res.assumptions = ["thresholds are totally ordered numbers (the code admits int, float, bool literals only)"]
